@@ -29,6 +29,7 @@ const ACCEPTED: &[u8] = b"ACCEPT-abcdef";
 const REDEEM: &[u8] = b"REDEEM-abcdef";
 const LOCKED: &[u8] = b"LOCKED-abcdef";
 const OTHER: &[u8] = b"OTHER-abcdef";
+const FOREIGN_SFT: &[u8] = b"FOREIGN-abcdef";
 /// `MAX_PERCENTAGE` of the README: 10^13 = 100 %
 const MAXP: u64 = 10_000_000_000_000;
 
@@ -554,7 +555,11 @@ impl World for PdWorld {
         }
         if rng.chance(8, 100) {
             // malformed
-            return match rng.below(8) {
+            return match rng.below(11) {
+                // an SFT of a FOREIGN collection carrying the redeem nonces 1 / 2 (mutant: token-id check of withdraw / redeem removed)
+                8 => ('O', format!("bad withdraw {} foreign{} {}", u, rng.range(1, 2), rng.range(1, 1000))),
+                9 => ('O', format!("bad redeem {} foreign{} {}", u, rng.range(1, 2), rng.range(1, 1000))),
+                10 => ('O', format!("bad deposit {} foreign{} {}", u, rng.range(1, 2), rng.range(1, 1000))),
                 0 => ('O', format!("bad deposit {} other 1000", u)),
                 1 => ('O', format!("bad deposit {} redeem{} 1", u, rng.range(1, 2))),
                 2 => ('O', format!("bad withdraw {} launched 1000", u)),
@@ -1007,6 +1012,25 @@ impl World for PdWorld {
                     ("redeem", "accepted") => self.b.execute_esdt_transfer(&c, &self.pd, ACCEPTED, 0, &amt, |sc| {
                         sc.redeem();
                     }),
+                    (ep, "foreign1") | (ep, "foreign2") => {
+                        let nonce = if w[3] == "foreign1" { 1 } else { 2 };
+                        self.b.set_nft_balance(&c, FOREIGN_SFT, nonce, &amt, &Empty);
+                        let r = self.b.execute_esdt_transfer(&c, &self.pd, FOREIGN_SFT, nonce, &amt, |sc| match ep {
+                            "withdraw" => {
+                                sc.withdraw();
+                            }
+                            "redeem" => {
+                                sc.redeem();
+                            }
+                            _ => {
+                                sc.deposit();
+                            }
+                        });
+                        // whatever happened, take the foreign tokens out of the picture again
+                        self.b.set_nft_balance(&c, FOREIGN_SFT, nonce, &BigUint::zero(), &Empty);
+                        self.b.set_nft_balance(&self.pd.address_ref().clone(), FOREIGN_SFT, nonce, &BigUint::zero(), &Empty);
+                        r
+                    }
                     ("withdraw", "nonce3") => {
                         self.b.set_nft_balance(&c, REDEEM, 3, &amt, &Empty);
                         let r = self.b.execute_esdt_transfer(&c, &self.pd, REDEEM, 3, &amt, |sc| {
